@@ -12,6 +12,13 @@ one, and then compares with the specification's next state:
 * the set of threads inside probe bodies (``incs``),
 * the set of threads whose pending acquire cannot succeed (``blk``),
 * for ``Read``: the reply the real probe got from the FIFO terminal.
+
+Thread population (model ``n``): a model thread exists in the world from the step ``Create`` that brings it into
+existence (or from the start of its process when ``Creator`` is 0); what the ``threading`` module would tell the code
+of a process about its threads (``active_count()``, ``enumerate()``) is the model's: born, not finished, created
+through ``threading`` (``Kind``) - every process of a world is a module copy inside ONE OS process, so the real answer
+would count the controller and the threads of all processes.  Time (``Elapse``): more time than any finite timeout
+passes with nobody moving; bounded waits for a lock expire (``sched.expire_waits``), unbounded ones keep waiting.
 """
 
 from __future__ import annotations
@@ -72,12 +79,15 @@ class World:
         self.procobj: dict[int, sched.ProcObj] = {}
         self.replies: dict[int, list] = {}
         self.counter = 0
+        self.born: set = set()
+        self._item: dict = {}
         self._make_proc(0, None)
         # configuration of the root process at its first Process.start() (disable_queries() or not)
         dict.__setitem__(self.procs[0], "_queries_enabled", bool(qen))
-        for t in self.threads_of(0):
+        for t in self.born0_of(0):
+            self.born.add(t)
             self.ctl.spawn(t, self._program(t))
-        for t in self.threads_of(0):
+        for t in self.born0_of(0):
             self._to_first(t)
 
     # -- model constants ----------------------------------------------------------------
@@ -90,12 +100,75 @@ class World:
     def threads_of(self, p):
         return [t for t in range(1, self.cfg["nt"] + 1) if self.proc_of(t) == p]
 
+    def creator(self, t):
+        return (self.cfg.get("creator") or [0] * self.cfg["nt"])[t - 1]
+
+    def kind(self, t):
+        return (self.cfg.get("kind") or ["threading"] * self.cfg["nt"])[t - 1]
+
+    def born0_of(self, p):
+        """the threads process p has when it starts running"""
+        return [t for t in self.threads_of(p) if self.creator(t) == 0]
+
+    # -- what `threading` tells the code of process p about its threads ------------------
+    def visible_threads(self, p):
+        ths = self.threads_of(p)
+        out = []
+        for t in ths:
+            mt = self.ctl.threads.get(t)
+            alive = t in self.born and (t == ths[0] or mt is None or not mt.done)  # the main thread outlives its program
+            if alive and self.kind(t) == "threading":
+                out.append(t)
+        return out or ths[:1]
+
+    def _install_thread_view(self, g, p):
+        import threading
+
+        world = self
+
+        class VThread:
+            daemon = False
+
+            def __init__(self, t, main):
+                self.name = "MainThread" if main else f"Thread-{t}"
+                self.ident = self.native_id = 1000 + t
+
+            def is_alive(self):
+                return True
+
+        def enumerate_():
+            first = world.threads_of(p)[0]
+            return [VThread(t, t == first) for t in world.visible_threads(p)]
+
+        def active_count():
+            return len(world.visible_threads(p))
+
+        over = {"active_count": active_count, "activeCount": active_count, "enumerate": enumerate_}
+
+        class ThreadingView:
+            def __getattr__(self, name):
+                if name in over:
+                    return over[name]
+                if name == "RLock":
+                    return dict.__getitem__(g, "RLock")
+                return getattr(threading, name)
+
+        real = {id(getattr(threading, n)): f for n, f in over.items() if hasattr(threading, n)}
+        for k, v in list(g.items()):
+            if k.startswith("__"):
+                continue
+            if v is threading:
+                dict.__setitem__(g, k, ThreadingView())
+            elif id(v) in real and callable(v):
+                dict.__setitem__(g, k, real[id(v)])
+
     # -- processes ----------------------------------------------------------------------
     def _make_proc(self, p, parent):
         g = sched.load_utils_copy(f"utils__c14_{self.uid}_p{p}", self.ctl)
         sched.install_locks(g, self.ctl, f"p{p}")
         if parent is not None and self.modes[p - 1] == "fork":
             sched.fork_into(self.procs[parent], g, self.ctl, f"p{p}")
+        self._install_thread_view(g, p)
         sched.apply_wrappers(g, self._fake_start, self._fake_run)
         if self.instance == "tty":
             g["__probe"] = self._make_probe(g)
@@ -164,6 +237,7 @@ class World:
         def run():
             g = self.procs[p]
             for ip, item in enumerate(self.prog(t), start=1):
+                self._item[t] = item["k"]
                 if item["k"] == "call":
                     if self.instance == "tty":
                         g["__probe"](item["d"], [t, ip])
@@ -183,6 +257,9 @@ class World:
         # the child's main thread: Process.run() -> target
         t = self.threads_of(procobj.child)[0]
         self._program(t)()
+
+    def _current_item(self, t):
+        return self._item.get(t)
 
     def _to_first(self, t):
         at = self.ctl.resume(t)
@@ -227,9 +304,32 @@ class World:
                 self.term.reply()
         elif act == "RunWrap":
             c = op["req"][0]
-            ths = self.threads_of(c)
+            ths = self.born0_of(c)
             for t2 in ths:
                 self._to_first(t2)
+        elif act == "Create":
+            # thread `u` comes into existence now (its creator is wherever the walk has taken it: inside a body, inside
+            # the start wrapper, ...) and runs to the first statement of its program
+            u = op["req"][0]
+            self.born.add(u)
+            ctl.spawn(u, self._program(u))
+            self._to_first(u)
+        elif act == "Elapse":
+            # more time than any timeout goes by; the specification: whoever waits still waits (compared below)
+            gone = sched.expire_waits(ctl)
+            still = self.blocked()
+            left = [x for x in gone if x not in still]
+            if left:
+                t2 = left[0]
+                item = self._current_item(t2)
+                raise Divergence(
+                    "HandOverHeld" if item == "start" else "MutualExclusion", "Elapse:wait-abandoned",
+                    f"thread {t2} ({'the start wrapper' if item == 'start' else 'a synchronized call'}) waited for the lock "
+                    f"that guards the terminal, which another thread holds inside a synchronized call that lasts longer "
+                    f"than any timeout; the specification: it waits for as long as it takes (the lock is handed over / "
+                    f"entered only when free); the real code gave up waiting and went on without the lock "
+                    f"(now at {ctl.where(t2) and ctl.where(t2)[0]!r})",
+                )
         else:
             mt = ctl.threads.get(t)
             if mt is None or mt.done:
@@ -268,7 +368,8 @@ class World:
                 procobj = mt.at[1]
                 c = procobj.child
                 self._make_proc(c, self.proc_of(t))
-                for t2 in self.threads_of(c):
+                for t2 in self.born0_of(c):
+                    self.born.add(t2)
                     fn = (
                         (lambda po=procobj, gg=self.procs[c]: gg["_process_run_wrapper"](po))
                         if t2 == self.threads_of(c)[0]
